@@ -35,7 +35,7 @@ EXCS = {"RuntimeError": RuntimeError, "ValueError": ValueError, "OSError": OSErr
 VIEWS = ["contig", "slice", "step", "transpose", "inner", "expand"]
 CLS = ["rand", "all256", "zeros", "ff", "ramp", "cover"]
 ATEN = ["add", "eq", "sum", "select", "slice", "reshape", "clone", "to_int32", "cat"]
-OPKINDS = ["unpack_bytes", "unpack_packed", "pack", "aten", "detach", "to", "flatten", "noext", "mutate"]
+OPKINDS = ["unpack_bytes", "unpack_packed", "pack", "aten", "detach", "to", "flatten", "noext", "mutate", "refill"]
 PREFIXES = ["", "w.", "weight._data.", "m.0.weight._data."]
 FALLBACK = "Falling back to default implementation"
 
@@ -354,7 +354,47 @@ class World:
                 if top or op.get("catch"):
                     continue
                 raise
+            if not self.check_held(op, p):
+                outcome = "HELD-RESULT-CHANGED"
             self.note(op, before, outcome, p)
+
+    def hold(self, t):
+        """Keep a result that was handed to the caller: it is the caller's tensor now and nothing the
+        library does later may change it (an unpack at any point of a history returned the right values,
+        and they stay right)."""
+        held = self.__dict__.setdefault("held", [])
+        held.append((t, _np(t).copy()))
+        if len(held) > 6:
+            held.pop(0)
+
+    def check_held(self, op, p):
+        ok = True
+        for k, (t, want) in enumerate(self.__dict__.get("held", [])):
+            if t is None:
+                continue
+            if not np.array_equal(_np(t), want):
+                ok = False
+                self.res["judged"] += 1
+                self.violate("history", op["op"], {"what": "earlier_result_changed"}, f"a tensor returned by an earlier unpack changed its values while {op['op']} ran", p)
+                self.held[k] = (None, None)
+        return ok
+
+    def op_refill(self, op, p):
+        """The caller overwrites its own uint8 staging buffer in place with a new payload (same shape)."""
+        e = self.pool.get(op.get("x"))
+        if e is None or e.kind != "bytes":
+            return "skipped"
+        new = make_bytes({"gen": op.get("gen", 1), "shape": list(e.obj.shape), "cls": op.get("cls", "rand"), "view": "contig"})
+        # results the caller is about to overwrite itself are no longer watched
+        sp = e.obj.untyped_storage().data_ptr()
+        self.held = [(t, wv) if (t is None or t.untyped_storage().data_ptr() != sp) else (None, None) for t, wv in self.__dict__.get("held", [])]
+        _, exc = _call(lambda: e.obj.copy_(new))
+        if exc is not None:
+            return "skipped"
+        e.raw = _np(e.obj)
+        e.all256 = e.raw.size >= 256 and len(np.unique(e.raw)) == 256
+        self.probe("staging_buffer_refilled")
+        return "ok"
 
     def note(self, op, before, outcome, p):
         after = self.sig()
@@ -558,6 +598,7 @@ class World:
             self.probe(f"all_256_bytes_checked_b{bits}")
             self.probe("all_256_bytes_checked")
         if last is not None:
+            self.hold(last)
             self.log.add("unpacked", op["x"], bits, hexdigest(_np(last).tobytes()))
             if op.get("out") and op["out"] not in self.pool:
                 self.pool[op["out"]] = Entry("bytes", last, _np(last))
@@ -891,6 +932,12 @@ class Planner:
             if r.random() < 0.25 and shape[0] * 8 // bits <= 17:
                 op["out"] = f"b{self.n}"
                 self.bytes[op["out"]] = ((1 << bits) - 1, [shape[0] * 8 // bits] + shape[1:])
+        elif k == "refill":
+            if self.bytes:
+                x = r.choice(sorted(self.bytes))
+                self.emit(ops, {"op": "refill", "x": x, "gen": self.S.sub("refill", self.n), "cls": r.choice(sw["cls"])})
+                # the refilled buffer is unpacked again right away (same address, same shape, new payload)
+                self.emit(ops, {"op": "unpack", "x": x, "bits": r.choice(sw["bits"]), "via": self.vias(False)})
         elif k == "pack":
             self.new_pack(ops)
         elif k == "noext":
